@@ -420,7 +420,9 @@ Proof.
     { destruct (j_mode c =? 0); [inversion Hf|]. destruct (j_cursor c) as [cu|]; [|inversion Hf].
       destruct (j_mode c =? 1).
       - unfold from_cursor_run in Hf. apply resolver_run_error in Hf; [tauto | reflexivity].
-      - unfold through_cursor_run in Hf. apply resolver_run_error in Hf; [destruct Hf; discriminate | reflexivity]. }
+      - unfold through_cursor_run, through_resolver_run in Hf.
+        match type of Hf with (if ?X then _ else _) = _ => destruct X end; [inversion Hf|].
+        apply resolver_run_error in Hf; [destruct Hf; discriminate | reflexivity]. }
     subst fevs. destruct (j_filter c =? 1); cbn [file_phase file_phase_fin] in H; inversion H; reflexivity.
   - intros H; inversion H.
   - intros H; inversion H.
